@@ -247,6 +247,8 @@ struct Built {
     expected_path: String,
     substitute: bool,
     def_name: String,
+    /// (property name, expected path) of the sibling use, if any
+    sibling_expected: Option<(String, String)>,
 }
 
 fn build(c: &Value) -> Option<Built> {
@@ -354,7 +356,29 @@ fn build(c: &Value) -> Option<Built> {
             json!({"$ref": format!("#/definitions/{def_name}")})
         }
     };
-    defs.insert("Holder".into(), json!({"type": "object", "properties": {"p": prop_schema}, "required": ["p"]}));
+    let mut holder_props = Map::new();
+    holder_props.insert("p".into(), prop_schema);
+    // a second use of the same path with *different* type parameters in the same type space,
+    // converted before ("a_sibling") or after ("z_sibling") the property under observation
+    let sibling = c.get("sibling").and_then(|s| s.as_str()).unwrap_or("none");
+    let mut sibling_expected = None;
+    if sibling != "none" {
+        if malformed != "none" || !matches!(sibling, "before" | "after") {
+            return None;
+        }
+        let (sp, sidents) = params((pkind + 1) % 4);
+        let mut sext = ext.clone();
+        if sp.is_empty() {
+            sext.remove("parameters");
+        } else {
+            sext.insert("parameters".into(), json!(sp));
+        }
+        let name = if sibling == "before" { "a_sibling" } else { "z_sibling" };
+        holder_props.insert(name.into(), annotated(Value::Object(sext)));
+        sibling_expected = Some((name.to_string(), sidents));
+    }
+    let required: Vec<String> = holder_props.keys().cloned().collect();
+    defs.insert("Holder".into(), json!({"type": "object", "properties": holder_props, "required": required}));
     let mut settings = Settings::default();
     if cfg != "absent" {
         settings.crates.insert(crate_name.into(), CrateCfg { version: cfg.into(), rename: rename.map(|s| s.to_string()) });
@@ -376,8 +400,15 @@ fn build(c: &Value) -> Option<Built> {
     if !pidents.is_empty() {
         expected_path.push_str(&format!("<{}>", pidents.join(",")));
     }
+    let sibling_expected = sibling_expected.map(|(n, idents)| {
+        let mut e = format!("::{first}::things::Thing");
+        if !idents.is_empty() {
+            e.push_str(&format!("<{}>", idents.join(",")));
+        }
+        (n, e)
+    });
     let case = Case { settings, history: vec![Step::Root { doc: json!({"definitions": Value::Object(defs)}) }], roots: vec![RootSel::Ref { r: "#/definitions/Holder".into() }], ..Default::default() };
-    Some(Built { case, expected_path, substitute, def_name: def_name.to_string() })
+    Some(Built { case, expected_path, substitute, def_name: def_name.to_string(), sibling_expected })
 }
 
 impl Property for C13 {
@@ -435,6 +466,18 @@ impl Property for C13 {
                 }
             }
         }
+        // two uses of one path with different parameters in one type space
+        for sib in ["before", "after"] {
+            for p in 0..4 {
+                for s in ["property", "item"] {
+                    for (cfg, u) in [("*", "Generate"), ("absent", "Allow"), ("1.2.3", "Deny")] {
+                        let mut c = cell("my-crate", "1.2.3", cfg, None, u, p, s, "none", if cfg == "1.2.3" { Some(true) } else { None });
+                        c["sibling"] = json!(sib);
+                        out.push(c);
+                    }
+                }
+            }
+        }
         // malformed extensions: never substituted, always generated
         for m in ["bad-req", "bad-req-op", "path-other-crate", "path-prefix-sharing", "path-prefix-of-crate", "path-no-sep", "missing-version", "missing-path", "missing-crate", "version-number", "not-an-object", "parameters-object"] {
             for cfg in ["absent", "*", "!", "1.2.3"] {
@@ -471,7 +514,7 @@ impl Property for C13 {
             return unit;
         };
         let Some(holder) = ingest::fact_of(&ing.space, hid) else { return unit };
-        let Some(p) = holder.props.first() else {
+        let Some(p) = holder.props.iter().find(|p| p.name == "p") else {
             unit.violations.push(Violation::new("observe-failed", format!("Holder has no property: {:?}", holder)));
             return unit;
         };
@@ -508,6 +551,13 @@ impl Property for C13 {
             }
             if site == "def_diff" && !via_newtype && observed == b.expected_path {
                 // allowed: the path stands directly for the schema
+            }
+            // the sibling use keeps its own parameters
+            if let Some((name, want)) = &b.sibling_expected {
+                let got = holder.props.iter().find(|q| &q.name == name).map(|q| q.type_ident.replace(' ', "").replace(",>", ">")).unwrap_or_default();
+                if &got != want {
+                    unit.violations.push(Violation::new("substitution-expected", format!("cell {}: sibling property {} expected {} but the API says {}", cell_v, name, want, got)));
+                }
             }
         } else {
             if observed.starts_with("::") && observed.contains("::Thing") {
